@@ -414,7 +414,7 @@ def check_items(ctx, facts, params):
         if not good:
             report(f'{tag}|list', f'{tag}: the list {one},{two} does not insert both values')
         # ---- malformed items are rejected
-        for bad in ['', ',', one + ',', '*/', '/', one + '-', '-' + one, one + '-' + two + '-' + two, one + '/2', '*/0', '*' + one, one + '*', one + ' ', '*/x', '*/-1']:
+        for bad in ['', ',', one + ',', '*/', '/', one + '-', '-' + one, one + '-' + two + '-' + two, one + '/2', '*/0', '*' + one, one + '*', one + ' ', '*/x', '*/-1', '*/+2', '+' + one]:
             res = IT.run(lambda I_, st, bad=bad: [(st.clone(), RT.XText(lit(bad), {}, False))], mn, mx, kind)
             good = bool(res) and all(is_err(rv) for st, rv in res)
             ctx.rule('C16-I malformed items are rejected', 1, 1 if good else 0, sample={'field': tag, 'item': bad})
